@@ -5,7 +5,7 @@
 From Coq Require Import ZArith NArith List Bool.
 From PydoctorVerif Require Import Base.Sexp Model.Visitor Model.BuilderStack Spec.Walk Proofs.VisitorProofs Gen.SkipSites
   Model.VisitorIR Gen.VisitorCode Proofs.VisitorIRProofs
-  Model.StackIR Gen.StackCode Proofs.StackIRProofs.
+  Model.StackIR Gen.StackCode Proofs.StackIRProofs Proofs.VisitorCorollaries.
 Import ListNotations.
 
 (* What each participant (main visitor = 0, or any extension) sees of walkabout() is exactly a
@@ -122,6 +122,42 @@ Proof.
   intros im obj ln s s'. rewrite push_ir_eq, pop_ir_eq. split; [apply push_m_scopes|apply pop_m_scopes].
 Qed.
 
+(* ---- the clauses of the property text, one by one (corollaries of the projection theorem; Proofs/VisitorCorollaries.v) ----
+   entered_by p tr / left_by p tr: the nodes participant p entered / left, in trace order. *)
+
+(* "each node is entered at most once": for every participant, provided the tree's node identities are distinct;
+   and nothing outside the tree is ever entered. *)
+Theorem C19_entered_at_most_once :
+  forall (exts : list ext) (prune : N -> option action) (t : tree) (p : N),
+    NoDup (main_id :: map ext_id exts) -> In p (main_id :: map ext_id exts) -> NoDup (preorder t) ->
+    NoDup (entered_by p (fst (walkabout exts prune t))) /\
+    forall n, In n (entered_by p (fst (walkabout exts prune t))) -> In n (preorder t).
+Proof. exact entered_at_most_once. Qed.
+
+(* "every extension that entered a node also leaves it" -- whatever the main visitor pruned: the exits of an extension
+   are the post-order of the traversed sub-tree, a permutation of its entries (the pre-order of the same sub-tree). *)
+Theorem C19_extension_leaves_what_it_entered :
+  forall (exts : list ext) (prune : N -> option action) (t : tree) (p : N),
+    NoDup (main_id :: map ext_id exts) -> In p (map ext_id exts) ->
+    left_by p (fst (walkabout exts prune t)) = postorder (traversed prune t) /\
+    Permutation.Permutation (entered_by p (fst (walkabout exts prune t))) (left_by p (fst (walkabout exts prune t))).
+Proof. exact extension_leaves_what_it_entered. Qed.
+
+(* the main visitor itself misses exactly the departures it asked to skip (SkipNode / SkipDeparture) *)
+Theorem C19_main_leaves_unless_skipped :
+  forall exts prune t,
+    NoDup (main_id :: map ext_id exts) ->
+    left_by main_id (fst (walkabout exts prune t)) = filter (main_departs prune) (postorder (traversed prune t)).
+Proof. exact main_leaves_unless_skipped. Qed.
+
+(* "enter/leave calls nest like the tree": read as pushes and pops, each leave of an extension pops the node it
+   entered last and has not left yet, and the stack ends where it began -- from any starting stack. *)
+Theorem C19_extension_calls_well_bracketed :
+  forall (exts : list ext) (prune : N -> option action) (t : tree) (p : N) (st : list N),
+    NoDup (main_id :: map ext_id exts) -> In p (map ext_id exts) ->
+    stack_run (fun _ => true) (fun _ => true) (filter (who_is p) (fst (walkabout exts prune t))) st = Some st.
+Proof. exact extension_calls_well_bracketed. Qed.
+
 (* The walkabout() of the pinned commit (before the fix: commit) violated the projection property:
    a BEFORE extension enters node 2 and never leaves it when main raises SkipSiblings there. *)
 Definition w_exts := [{| ext_id := 1; ext_when := BEFORE |}].
@@ -142,4 +178,15 @@ Proof.
   - repeat constructor; cbn; intuition discriminate.
   - cbn. auto.
   - vm_compute. reflexivity.
+Qed.
+
+Example C19_clause_hypotheses_satisfiable :
+  NoDup (preorder w_tree) /\ In 1%N (map ext_id w_exts) /\
+  entered_by 1 (fst (walkabout w_exts w_prune w_tree)) = [1; 2; 4]%N /\
+  left_by 1 (fst (walkabout w_exts w_prune w_tree)) = [4; 2; 1]%N /\
+  left_by main_id (fst (walkabout w_exts w_prune w_tree)) = [4; 2; 1]%N.
+Proof.
+  split; [|split; [|split; [|split]]]; try (vm_compute; reflexivity).
+  - repeat constructor; cbn; intuition discriminate.
+  - cbn. auto.
 Qed.
